@@ -44,6 +44,7 @@ def run_auto(case):
     cfg.setdefault("mode", "ansi")
     cfg.setdefault("next", [])
     cfg.setdefault("prev", [])
+    cfg.setdefault("values", ["-", "%", "|", "/"])
     b = Baton()
     old = (pim.threading, pim.time)
     old_cols = os.environ.get("COLUMNS")
@@ -59,7 +60,14 @@ def run_auto(case):
             out = Output(b.stream(ansi=True), AnsiFormatter(forced=True))
         if cfg["mode"] == "quiet":
             out.set_quiet(True)
-        ind = pim.ProgressIndicator(out, interval=cfg["interval"])  # ONE indicator object for every run of the case
+        try:
+            if cfg["values"] == ["-", "%", "|", "/"]:
+                ind = pim.ProgressIndicator(out, interval=cfg["interval"])  # ONE indicator object for every run of the case
+            else:  # the constructor route for the indicator values
+                ind = pim.ProgressIndicator(out, interval=cfg["interval"], values=[{"%": "\\"}.get(v, v) for v in cfg["values"]])
+        except Exception as e:  # noqa: an indicator that cannot be built is an observation: the run did not leave normally
+            return [dict(_event("", "new"), cfg=cfg),
+                    dict(_event("", "end"), outcome="raised", exc=type(e).__name__, salive=False, sexc="", skipped=0)]
         sched = list(case["schedule"])
         runs = [cfg] + [dict(c, next=[]) for c in cfg["next"]]
         for k, c in enumerate(runs):
@@ -190,14 +198,15 @@ def random_case(rng):
     for _ in range(rng.choice([0, 1, 1, 2, 2, 3, 4, 6])):
         x = rng.random()
         if x < 0.6:
-            body.append({"k": "set", "m": list(rng.choice(MSGS))})
+            body.append({"k": "set", "m": list(rng.choice(MSGS + [""]))})
         elif x < 0.9:
             body.append({"k": "work", "m": []})
         else:
             body.append({"k": rng.choice(["raise", "raise", "interrupt"]), "m": []})
             break
-    cfg = {"mode": rng.choice(["ansi", "ansi", "ansi", "plain", "quiet"]), "w": 40, "interval": rng.choice([100, 100, 100, 50, 200, 0]),
-           "start": list("AAAA"), "end": list("END"), "body": body, "next": [], "prev": []}
+    cfg = {"mode": rng.choice(["ansi", "ansi", "ansi", "plain", "quiet"]),
+           "values": rng.choice([["-", "%", "|", "/"]] * 3 + [["1", "2"], ["1", "2", "3"], ["-", "%", "|", "/", "+", "*", "~"]]), "w": 40, "interval": rng.choice([100, 100, 100, 50, 200, 0]),
+           "start": list(rng.choice(["AAAA", "AAAA", "AAAA", ""])), "end": list("END"), "body": body, "next": [], "prev": []}
     sched = []
     # a random walk over thread ids and clock advances; elements that are not enabled when their turn comes are
     # skipped by run_auto, so any sequence is a schedule.  Bursts make long runs of one thread likely as well.
@@ -328,7 +337,7 @@ def random_manual_case(rng):
         elif x < 0.75:
             ops.append({"op": "advance", "dt": dt, "m": []})
         elif x < 0.9:
-            ops.append({"op": "set", "dt": dt, "m": list(rng.choice(MSGS))})
+            ops.append({"op": "set", "dt": dt, "m": list(rng.choice(MSGS + [""]))})
         else:
             # often with the message of the last start(): the next start() of the same object then repeats a frame
             last = [o["m"] for o in ops if o["op"] == "start"]
@@ -429,7 +438,7 @@ def run(ctx):
                 else ["MC_Spinner_sched_all.cfg", "MC_Spinner_sched_twice.cfg", "MC_Spinner_sched_thorough.cfg"]):
         r = ctx.model(SPEC, "MC_Spinner", cfg, name="schedules " + cfg, workers=8)
         n_all += _replay_auto(ctx, r, traces, cases, labels, state)
-    r = ctx.model(SPEC, "MC_Spinner", "MC_Spinner_sim.cfg", name="simulated schedules", simulate="num=%d" % (150 if quick else 8000),
+    r = ctx.model(SPEC, "MC_Spinner", "MC_Spinner_sim.cfg", name="simulated schedules", simulate="num=%d" % (100 if quick else 8000),
                   depth=200, workers=1, seed=ctx.seed % 100000)
     n_sim = _replay_auto(ctx, r, traces, cases, labels, state)
     if n_all < 1000 or n_sim < 50:
